@@ -9,7 +9,19 @@ import math
 import time
 
 
+class IntSub(int):
+    """An instance of 'some subclass of int' (what enum.IntEnum members are) for replays."""
+
+
+class StrSub(str):
+    pass
+
+
 def encode(v):
+    if isinstance(v, IntSub):
+        return {'__subclass_of_int__': str(int(v))}
+    if isinstance(v, StrSub):
+        return {'__subclass_of_str__': str(v)}
     if v is None or isinstance(v, (bool, int, str)):
         if isinstance(v, int) and not isinstance(v, bool) and abs(v) > 2 ** 53:
             return {'__int__': str(v)}
@@ -80,6 +92,10 @@ def decode(d):
     if isinstance(d, dict):
         if '__int__' in d:
             return int(d['__int__'])
+        if '__subclass_of_int__' in d:
+            return IntSub(d['__subclass_of_int__'])
+        if '__subclass_of_str__' in d:
+            return StrSub(d['__subclass_of_str__'])
         if '__float__' in d:
             s = d['__float__']
             return float.fromhex(s) if s.startswith(('0x', '-0x')) else float(s)
